@@ -377,6 +377,13 @@ func mentionsField(v ssa.Value, pkg, typ, field string, depth int) bool {
 	if isField(v, pkg, typ, field) {
 		return true
 	}
+	if prm, isP := v.(*ssa.Parameter); isP {
+		for _, a := range paramBindings[prm] {
+			if mentionsField(a, pkg, typ, field, depth-1) {
+				return true
+			}
+		}
+	}
 	in, ok := v.(ssa.Instruction)
 	if !ok {
 		return false
@@ -685,10 +692,48 @@ func loopCondBlock(b *ssa.BasicBlock, loop map[*ssa.BasicBlock]bool) bool {
 			if bi, ok := cc.Value.(*ssa.Builtin); ok && bi.Name() == "len" {
 				continue
 			}
+			if isPurePredicate(cc.StaticCallee(), 2) {
+				continue // the loop condition spelled as a named predicate over the same operands
+			}
 			return false
 		}
 	}
 	return true
+}
+
+// isPurePredicate: a repo function returning bool that only compares its inputs: no stores, no sends, no calls other
+// than len, errors.Is/As, strings comparisons and other pure predicates.
+func isPurePredicate(fn *ssa.Function, depth int) bool {
+	if fn == nil || fn.Blocks == nil || depth == 0 || theCtx == nil || !theCtx.inRepo(fn) {
+		return false
+	}
+	res := fn.Signature.Results()
+	if res.Len() != 1 || res.At(0).Type().String() != "bool" {
+		return false
+	}
+	pure := true
+	eachInstr(fn, func(in ssa.Instruction) {
+		switch x := in.(type) {
+		case *ssa.Store, *ssa.Send, *ssa.Go, *ssa.Defer, *ssa.MapUpdate, *ssa.Panic:
+			pure = false
+		case *ssa.Call:
+			if bi, ok := x.Call.Value.(*ssa.Builtin); ok && (bi.Name() == "len" || bi.Name() == "cap") {
+				return
+			}
+			ci := describeCall(&x.Call)
+			switch {
+			case ci.Pkg == "errors" && (ci.Name == "Is" || ci.Name == "As"):
+			case ci.Pkg == "strings" && (strings.HasPrefix(ci.Name, "Has") || strings.HasPrefix(ci.Name, "Contains") || strings.HasPrefix(ci.Name, "Equal")):
+			case ci.Pkg == "sync/atomic" && strings.HasPrefix(ci.Name, "Load"):
+			case ci.Pkg == "time" && (ci.Name == "Since" || ci.Name == "Now" || ci.Name == "Unix" || ci.Name == "Add" || ci.Name == "After" || ci.Name == "Before" || ci.Name == "Sub"):
+			default:
+				if !isPurePredicate(x.Call.StaticCallee(), depth-1) {
+					pure = false
+				}
+			}
+		}
+	})
+	return pure
 }
 
 // lenZeroGuardOnParam finds `if len(p) == 0 { return ... }` on a slice parameter at the top of fn.
@@ -733,7 +778,7 @@ func emptyGuardParamIndex(fn *ssa.Function, g *ssa.If) int {
 }
 
 func guardedBy(b *ssa.BasicBlock, g *ssa.If) bool {
-	for _, cf := range condFacts(b) {
+	for _, cf := range normFacts(condFacts(b)) {
 		if cf.If == g && cf.True {
 			return true
 		}
@@ -748,7 +793,7 @@ func callerRecordsEmpty(cs ssa.Instruction, argIdx int) bool {
 		return false
 	}
 	arg := cc.Args[argIdx]
-	for _, cf := range condFacts(cs.Block()) {
+	for _, cf := range normFacts(condFacts(cs.Block())) {
 		bo, ok := cf.Cond.(*ssa.BinOp)
 		if !ok || bo.Op != token.EQL || cf.True {
 			continue
@@ -1079,9 +1124,9 @@ func onlyForEmptyList(c *Ctx, f *ssa.Function) (bool, string) {
 	}
 	for _, cs := range sites {
 		ok := false
-		for _, cf := range condFacts(cs.Block()) {
+		for _, cf := range normFacts(condFacts(cs.Block())) {
 			if x := lenEqZeroOperand(cf.Cond); x != nil && cf.True {
-				if nonEmptyAt(c, x, cf.If, 3) {
+				if nonEmptyAt(c, x, cf.If, 6) {
 					ok = true
 				}
 			}
@@ -1114,9 +1159,53 @@ func lenEqZeroOperand(v ssa.Value) ssa.Value {
 // nonEmptyAt: slice value x is known non-empty at instruction `at` (dominating false branch of len(x)==0, or x is a
 // parameter and all static callers pass a value non-empty at their call site).
 func nonEmptyAt(c *Ctx, x ssa.Value, at ssa.Instruction, depth int) bool {
-	for _, cf := range condFacts(at.Block()) {
+	for _, cf := range normFacts(condFacts(at.Block())) {
 		if y := lenEqZeroOperand(cf.Cond); y != nil && y == x && !cf.True {
 			return true
+		}
+	}
+	// (list, ok) := helper(...): under ok the list is non-empty if the helper answers ok=true only with a non-empty list
+	if ex, isEx := x.(*ssa.Extract); isEx && depth > 0 {
+		if call, isCall := ex.Tuple.(*ssa.Call); isCall {
+			if g := call.Call.StaticCallee(); g != nil && g.Blocks != nil && c.inRepo(g) {
+				var okV ssa.Value
+				for _, ref := range *call.Referrers() {
+					if e2, isE := ref.(*ssa.Extract); isE && e2.Type().String() == "bool" {
+						okV = e2
+					}
+				}
+				underOK := false
+				for _, cf := range normFacts(condFacts(at.Block())) {
+					if okV != nil && cf.Cond == okV && cf.True {
+						underOK = true
+					}
+				}
+				if underOK {
+					all, n := true, 0
+					for _, ret := range returnsOf(g) {
+						if len(ret.Results) < 2 {
+							all = false
+							continue
+						}
+						var okRes ssa.Value
+						for _, rv := range ret.Results {
+							if rv.Type().String() == "bool" {
+								okRes = rv
+							}
+						}
+						if k, isK := okRes.(*ssa.Const); isK && k.Value != nil && k.Value.String() == "false" {
+							continue
+						}
+						n++
+						if ex.Index >= len(ret.Results) || !nonEmptyAt(c, ret.Results[ex.Index], ret, depth-1) {
+							all = false
+						}
+					}
+					if all && n > 0 {
+						return true
+					}
+				}
+			}
 		}
 	}
 	p, ok := x.(*ssa.Parameter)
